@@ -150,7 +150,7 @@ theorem body_tables (v : Ver) (T : OpTable) (names varnames freevars cellvars : 
   -- second pass: all four tables in step
   have hsim0 : SimSt names varnames cellvars K st0 { est0 with cellvars := cv } :=
     ⟨by rw [hn0, en0]; exact Sim.init _ _, hsv0, hsk0, hcomp2, by rw [hc0]⟩
-  obtain ⟨est1', xs, hres, hss⟩ := decodeInstrs_resolve v T freevars tp names varnames cellvars K hdoc (targetsOf ois) raws st0 st'
+  obtain ⟨est1', xs, hres, hss, _, _⟩ := decodeInstrs_resolve v T freevars tp names varnames cellvars K hdoc (targetsOf ois) raws st0 st'
     { est0 with cellvars := cv } ois hsim0 hdec
   rw [hflat, hres] at h1
   cases h1
